@@ -88,14 +88,16 @@ CHECKS = {
     technique="Lean 4 proof (merge_spec by induction on the recursion with frame lemmas, for every tree depth; exactness of every split after every history of sessions; recorded totals = enumeration totals) + differential correspondence of the shards_list.json documents after every session of generated histories, and an independent recount oracle",
     text="C04_merge_exact, C04_session_exact, C04_history_exact, C04_touched_split_recorded, C04_counts, C04_written_listed, C04_no_shard_listed_twice (no file name is enumerated twice after any history of sessions with freshly named shards), C04_every_written_shard_is_enumerated (+ C03_iter_order, C03_merge_keeps_update_order). "
          "Histories over root / fresh / reused / nested sub-directory fillers and multi-writer calls are executed on the real API; after every session the canonicalised list "
-         "documents must equal the model's store, and the tree is recounted from disk (decode every shard, no file listed twice or unlisted, handle == fresh open, check() passes).",
+         "documents must equal the model's store, and the tree is recounted from disk (decode every shard, no file listed twice or unlisted, handle == fresh open, check() passes)."
+         " C04Src.lean re-checks on the statement order extracted from the current source that write_config has no branch after the validation of the split names (no update bypasses merge_shard_infos) and writes the description last; histories include shards of thousands of examples and sessions nested in time on one handle.",
     note="Per-shard counts come from M-FILL (C10). pydantic (de)serialisation and the shard decoders are modelled-not-verified; multi-writer calls run single_process here (real processes: C09).",
     ref="DESIGN.md §5 C04, Appendix A.2"),
  "C08": dict(
     technique="Lean 4 proof (merge never changes any list's shard files, keeps reachable directories reachable, reaches every update, makes nothing else reachable; enumeration = shard entries of the reachable lists; a session adds exactly the shards it closed, for every history of completed sessions) + per-split before/after multiset comparison on generated histories; create-refused check",
     text="C08_merge_keeps_files, C08_merge_keeps_reachable, C08_session_append_only, C08_untouched_dirs_unchanged, C08_session_adds_exactly (iff, in terms of what the depth-first walk enumerates), "
          "C08_history_invariant (exactness and absence of unlinked lists after every history from the empty dataset), C08_enumeration_is_reachable_lists, C08_create_refused. After every session of a generated history the "
-         "examples reachable per split are exactly previous + newly written; Dataset.create on an existing dataset raises and leaves all files byte-identical.",
+         "examples reachable per split are exactly previous + newly written; Dataset.create on an existing dataset raises and leaves all files byte-identical."
+         " C08Src.lean re-checks on the statement order extracted from the current source that create tests and refuses before it creates anything and that a commit never takes the description file away (one atomic replace of a temp file written beforehand); create is also tried on a copy of the directory taken at every file-system effect of another handle's commit, sessions are continued by a process with another locale, and several held-back fillers are committed by one write_config.",
     note="Same model and externals as C04.",
     ref="DESIGN.md §5 C08"),
  "C05": dict(
